@@ -20,6 +20,7 @@ func init() {
 			"K4 amounts acquired derive from GetSystemReqs and the stores of Threads/MemGB there are clamped to the configured limits, " +
 			"K5 no lost wake-up: each decrease of reserved / change of curSize / delete from running is followed by runJobs / Signal before the unlock; FIFO head-of-line rule in runJobs; a waiter is queued only after the capacity test was crossed since the last acquisition of the mutex (test and enqueue are one critical section); every return after a cond.Wait() passes the wake-up on (explicit or deferred Signal/Broadcast), " +
 			"K6 the acquisition order of the four local semaphores is the same on every path. " +
+			"K7 with the state assumed Running the insertion into MaxJobsSemaphore.running is reachable in the method RemoteJobManager.reattach calls (re-attached running jobs are counted). " +
 			"NOT decided: arithmetic of UpdateFreeUsed, curSize<=maxSize through UpdateSize, progress of the run loop.",
 		Assumptions: commonAssumptions,
 	}
@@ -340,6 +341,13 @@ func runC12(c *an.Ctx) {
 					if r.Op == token.GTR && lenRunning(r.Y) && an.LoadsField(r.X, limit) {
 						return true
 					}
+					// the same test written on the spare capacity Limit-len(running), possibly through a one-line accessor
+					if isSpareExpr(r.X, running, limit) && ((r.Op == token.GTR && an.IsIntConst(r.Y, 0)) || (r.Op == token.GEQ && an.IsIntConst(r.Y, 1))) {
+						return true
+					}
+					if isSpareExpr(r.Y, running, limit) && ((r.Op == token.LSS && an.IsIntConst(r.X, 0)) || (r.Op == token.LEQ && an.IsIntConst(r.X, 1))) {
+						return true
+					}
 					return false
 				})
 				c.Check("K2", "slot(running[m]=)@"+an.FnName(fn)+":capacity", in.Pos(), ok,
@@ -519,14 +527,7 @@ func checkQueueWalk(c *an.Ctx, fn *ssa.Function, amt ssa.Value, waiters *types.V
 // spareEscapeOnly: every path from `after` to a return that avoids
 // Signal/Broadcast crosses only through edges that test Limit-len(running).
 func spareEscapeOnly(fn *ssa.Function, after ssa.Instruction, running, limit *types.Var) bool {
-	isSpare := func(v ssa.Value) bool {
-		b, ok := v.(*ssa.BinOp)
-		if !ok || b.Op != token.SUB || !an.LoadsField(b.X, limit) {
-			return false
-		}
-		args, isLen := an.IsBuiltinCall(b.Y, "len")
-		return isLen && an.LoadsField(args[0], running)
-	}
+	isSpare := func(v ssa.Value) bool { return isSpareExpr(v, running, limit) }
 	// escape requires having crossed both "spare <= 1" and "spare != 1" (=> spare <= 0)
 	w := an.Query{Fn: fn, After: after, Target: an.IsReturn,
 		Barrier: func(y ssa.Instruction) bool {
@@ -556,4 +557,17 @@ func spareEscapeOnly(fn *ssa.Function, after ssa.Instruction, running, limit *ty
 			})
 		}}.Find()
 	return w == nil
+}
+
+// isSpareExpr: v is Limit - len(running), directly or as the result of a one-line accessor.
+func isSpareExpr(v ssa.Value, running, limit *types.Var) bool {
+	if e, ok := an.ReturnExpr(v); ok {
+		v = e
+	}
+	b, ok := v.(*ssa.BinOp)
+	if !ok || b.Op != token.SUB || !an.LoadsField(b.X, limit) {
+		return false
+	}
+	args, isLen := an.IsBuiltinCall(b.Y, "len")
+	return isLen && an.LoadsField(args[0], running)
 }
